@@ -91,14 +91,22 @@ def run(ctx):
             pos = []
             for c, pol in conds:
                 pos.append(c if pol else negate(c))
-            want = [negate(("is", cbk, T.NONE)), want_should]
-            def canon(t):
-                if t[0] == "or":
-                    return ("or", tuple(sorted((canon(x) for x in t[1]), key=repr)))
-                if t[0] == "and":
-                    return ("and", tuple(canon(x) for x in t[1]))
-                return t
-            ok = sorted(repr(canon(p)) for p in pos) == sorted(repr(canon(w)) for w in want)
+            # callback set, and: force or (guards on the cadence option ..., iterations % every == 0)
+            cb_guard = [p for p in pos if p == negate(("is", cbk, T.NONE)) or p == cbk]
+            rest = [p for p in pos if p not in cb_guard]
+            ok = len(cb_guard) == 1 and len(rest) == 1 and rest[0][0] == "or"
+            if ok:
+                alts = list(rest[0][1])
+                ok = force in alts and len(alts) == 2
+                cad = [a for a in alts if a != force][0] if ok else None
+                if ok:
+                    parts = list(cad[1]) if cad[0] == "and" else [cad]
+                    hit = ("cmp", "==", ("f", "mod", (its, every), ()))
+                    others = [q for q in parts if q != hit]
+                    # the remaining conjuncts may only guard the option itself (set / positive), never the iteration
+                    ok = hit in parts and all(not any(s_ == its for s_ in T.subterms(q)) and any(s_ == every for s_ in T.subterms(q)) for q in others)
+                    # guards must come before the modulo (None % n / n % 0 would raise)
+                    ok = ok and (parts.index(hit) == len(parts) - 1 or not others)
             ctx.decide(ok, "C12.cad", mc.ident, loc_of(mc, cb[0].node),
                        "callback invoked iff callback set and (force or (every set and every > 0 and iterations % every == 0))",
                        f"callback invoked under {[T.show(p)[:160] for p in pos]}", disc="predicate")
@@ -292,6 +300,7 @@ MUTANTS = [
       "self._h5 = AspireFile(file_path, \"a\")\n            self.save_checkpoint_to_hdf(\n                self._h5 and state, self._h5, path=\"checkpoint\", dsetname=\"state\"\n            )", "C12.close"),
 ]
 NEUTRALS = [
+    M("cadence guard written as >= 1", _B, "and checkpoint_every > 0\n", "and checkpoint_every >= 1\n"),
     M("forced checkpoint positional", _B, "maybe_checkpoint(force=True)", "maybe_checkpoint(True)"),
     M("cadence disjuncts swapped", _B, "should_checkpoint = force or (\n                checkpoint_every is not None\n                and checkpoint_every > 0\n                and iterations % checkpoint_every == 0\n            )",
       "should_checkpoint = (\n                checkpoint_every is not None\n                and checkpoint_every > 0\n                and iterations % checkpoint_every == 0\n            ) or force"),
